@@ -28,6 +28,7 @@ pub fn def() -> CheckDef {
         assumptions: &["truth = the logical content the image was built with (checked against a fault-free dump first)", "position after a failed call is whatever the handle itself reports (the statement leaves it open)"],
         cpu_limit_s: 120,
         fault_kinds: "F-RE, F-SE at every k (enumerated), pairs",
+        count_subruns: true,
     }
 }
 
